@@ -558,7 +558,8 @@ class StaticResource(PrefixResource):
             append_version = self._append_version
         filename = str(filename).lstrip("/")
 
-        url = URL.build(path=self._prefix, encoded=True)
+        # The prefix is stored without its trailing slash: "" stands for "/".
+        url = URL.build(path=self._prefix or "/", encoded=True)
         # filename is not encoded
         url = url / filename
 
